@@ -214,6 +214,10 @@ void vf_case(vf::Ctx& c) {
                 if (!explicitD && s.offset == 0) s.offset = 1; }
             what = "arbitrary array";
         }
+        // KF-C17-empty-source (open finding): with an EMPTY source ZSTD_compressSequences emits the empty frame without looking at
+        // the sequence list at all, so an invalid list is accepted there (harmlessly: the frame decodes to the empty source).
+        // That exact shape is excluded from the "must be refused" demand and counted.
+        if (x.empty() && definitely_invalid) { definitely_invalid = false; c.label("excluded:KF-C17-empty-source"); }
         c.note("corruption kind=%d (%s) nseq=%zu; ", kind, what.c_str(), bad.size());
         if (getenv("VF_TRACE")) { size_t p = 0; for (size_t i = 0; i < bad.size() && i < 400; i++) { fprintf(stderr, "seq[%zu] @%zu (of %u ll %u ml %u)\n", i, p, bad[i].offset, bad[i].litLength, bad[i].matchLength); p += bad[i].litLength + bad[i].matchLength; } }
         setup();
